@@ -463,6 +463,10 @@ func ruleDirectWrite(c *Check, p *Program, rule string) {
 		if k, isK := ci.Common().Args[2].(*ssa.Const); isK && k.Value != nil && k.Value.Kind() == constant.Bool && !constant.BoolVal(k.Value) {
 			safeFalse = true
 		}
+		// or no release function is handed over (a nil callback)
+		if _, isFn := ci.Common().Args[2].Type().Underlying().(*types.Signature); isFn && isNilConst(ci.Common().Args[2]) {
+			safeFalse = true
+		}
 		c.Cond(seq && empty && full && safeFalse, rule, "Writer.Write#direct-block", p.InstrPos(ci), "a block is compressed straight from the caller's buffer only when the Writer is sequential, nothing is pending (w.idx == 0: data order and block boundaries), a full block is available, and the buffer is not released to the pool",
 			"guards {sequential, idx==0, len(buf)>=blocksize}, safe=false", fmt.Sprintf("sequential guard: %v; w.idx == 0 guard: %v; full-block guard: %v; safe=false: %v", seq, empty, full, safeFalse))
 	}
